@@ -74,10 +74,10 @@ MDToHdr(md) == {[name |-> k, vals |-> [j \in 1..Len(md[k]) |-> ApiToWire(k, md[k
 Outgoing(md0, h) == [k \in (DOMAIN md0) \cup KeysOf(h, Lower) |-> Get(md0, k) \o ValsFor(h, k, Lower, WireToApi)]
 \* AddHeaders into an http.Header (values stay in wire form)
 AddHdr(dest, h) == [k \in (DOMAIN dest) \cup KeysOf(h, Canon) |-> Get(dest, k) \o ValsFor(h, k, Canon, Same)]
-\* AddTrailers: the key is http.TrailerPrefix + name; ':' makes it a non-token, which
-\* http.Header.Add leaves uncanonicalised, so names that differ in case stay apart here (they
-\* are merged later by net/http when the trailer block is written)
-AddTrl(dest, h) == [k \in (DOMAIN dest) \cup KeysOf(h, Exact) |-> Get(dest, k) \o ValsFor(h, k, Exact, Same)]
+\* AddTrailers: the key is http.TrailerPrefix + the canonical form of the name, so that - as for
+\* AddHeaders - names that differ only in letter case are one trailer with all values in order
+\* (http.Header.Add does not canonicalise a key containing ':' by itself; fixed in /repo 2c8246b)
+AddTrl(dest, h) == [k \in (DOMAIN dest) \cup KeysOf(h, Canon) |-> Get(dest, k) \o ValsFor(h, k, Canon, Same)]
 \* ConvertToProtoHeader (http.Header / url.Values -> header list): one entry per key
 MapToHdr(m) == {[name |-> k, vals |-> m[k]] : k \in DOMAIN m}
 
